@@ -31,7 +31,8 @@ EXPLANATION = (
     "renames that group to include the protein and rewrites the peptide "
     "map of that group inside the same per-match iteration (old name "
     "removed, member removed, new name added). Nothing is cached across "
-    "calls. NOT decided: maximality for concrete incidence structures.")
+    "calls. Also: FASTA entries are cut at a '>' in the first column only (the split expression is evaluated, as a term, on four small texts); has_decoys is only ever raised inside the loop. "
+    "NOT decided: maximality for concrete incidence structures.")
 TECHNIQUE = ("structural path/loop analysis + guard truth table + "
              "mutation-while-iterating scan + set-provenance taint (ORDER) "
              "+ cross-call state scan")
